@@ -1,8 +1,8 @@
 # obligation groups for /repo/lib/date-core.c (incl. the calendar files it #includes)
 TU('date-core', 'lib/date-core.c', LIB_CFLAGS,
    pre=['spec/greg.h', 'spec/iso.h', 'contracts/date-core.loops.h'],
-   post=['contracts/date-core.contracts.h'],
-   native_link=['lib/strops.c', 'lib/token.c', 'lib/dt-locale.c'],
+   post=['contracts/date-core.contracts.h', 'contracts/date-core.arith.h'],
+   native_link=['lib/strops.c', 'lib/token.c', 'lib/dt-locale.c', 'lib/dt-core.c', 'lib/time-core.c', 'lib/leaps.c', 'lib/tzraw.c', 'lib/dt-core-tz-glue.c'],
    # non-const static lookup tables read by functions verified in direct mode (dfcc havocs statics):
    # (file, identifier) -- the driver checks on every run that they are never written
    static_tables=[('lib/yd.c', '__mon_yday'), ('lib/ymcw.c', 'ycum'), ('lib/bizda.c', 'tbl')])
@@ -38,8 +38,6 @@ G('dc.__daisy_get_wday', 'date-core', '__daisy_get_wday', DATE, ins=[('dt_daisy_
   solvers=['cvc5', 'cadical', 'z3'])
 G('dc.__daisy_get_year', 'date-core', '__daisy_get_year', DATE, ins=[('dt_daisy_t', 'in_d')], call='__daisy_get_year(in_d)', ret=U,
   replace=['__jan00_daisy'], solvers=['cvc5', 'cadical', 'z3'], sweep={'in_d': 'RND % 911300'})
-G('dc.__daisy_get_yday', 'date-core', '__daisy_get_yday', DATE, ins=[('dt_daisy_t', 'in_d')], call='__daisy_get_yday(in_d)', ret=U,
-  replace=['__jan00_daisy', '__daisy_get_year'], solvers=['cvc5', 'cadical', 'z3'], sweep={'in_d': 'RND % 911300'})
 G('dc.__ymd_to_daisy', 'date-core', '__ymd_to_daisy', DATE, ins=[('uint32_t', 'in_u')], setup='dt_ymd_t d; d.u = in_u;',
   call='__ymd_to_daisy(d)', ret='dt_daisy_t', solvers=['cvc5', 'cadical', 'z3'], timeout=400)
 for i in range(16):
@@ -47,3 +45,98 @@ for i in range(16):
     G('dc.__daisy_to_ymd.%02d' % i, 'date-core', '__daisy_to_ymd', DATE, ins=[('dt_daisy_t', 'in_n')], call='__daisy_to_ymd(in_n)',
       ret='dt_ymd_t', split='in_n >= %d && in_n <= %d' % (lo, hi), solvers=['cadical', 'cvc5'], timeout=600,
       sweep={'in_n': 'RND % 911300'})
+
+# ------------------------------------------------------------------ C01 converters
+YMD_IN = dict(ins=[('uint32_t', 'in_u')], setup='dt_ymd_t d; d.u = in_u;', sweep={'in_u': '((1598 + RND % 2500) << 10) | ((RND % 14) << 6) | (RND % 33)'})
+YD_IN = dict(ins=[('uint32_t', 'in_u')], setup='dt_yd_t d; d.u = in_u;', sweep={'in_u': '((1598 + RND % 2500) << 16) | (RND % 368)'})
+YMCW_IN = dict(ins=[('uint32_t', 'in_u')], setup='dt_ymcw_t d; d.u = in_u;', sweep={'in_u': '((1598 + RND % 2500) << 10) | ((RND % 14) << 6) | ((RND % 7) << 3) | (RND % 8)'})
+YWD_IN = dict(ins=[('uint32_t', 'in_u')], setup='dt_ywd_t d; d.u = in_u;', sweep={'in_u': '((1598 + RND % 2500) << 13) | ((RND % 55) << 6) | ((RND % 8) << 3) | (RND % 8)'})
+DAISY_IN = dict(ins=[('dt_daisy_t', 'in_n')], sweep={'in_n': 'RND % 911300'})
+SV = ['cadical', 'cvc5']
+ALL1 = [('all', '1')]
+Y8 = ALL1
+def wsplit(yexpr):
+    return [('w%d' % k, '(%s) >= 1601 && (%s) <= 4096 && S_J01WD((int)(%s)) == %d' % (yexpr, yexpr, yexpr, k)) for k in range(1, 8)]
+W7 = ALL1
+def dsplit(var, n=4):
+    step = (911280 + n - 1) // n
+    return [('%02d' % i, '%s >= %d && %s <= %d' % (var, i * step + 1, var, min((i + 1) * step, 911280))) for i in range(n)]
+
+G('dc.__ymd_get_yday', 'date-core', '__ymd_get_yday', DATE, call='__ymd_get_yday(d)', ret=U, replace=['__md_get_yday'], **YMD_IN)
+GS('dc.__ymd_get_wday', 'date-core', '__ymd_get_wday', DATE, Y8, call='__ymd_get_wday(d)', ret='dt_dow_t', replace=['__get_dom_wday'], solvers=SV, **YMD_IN)
+G('dc.__ymd_get_count', 'date-core', '__ymd_get_count', DATE, call='__ymd_get_count(d)', ret=U, **YMD_IN)
+GS('dc.__ymd_to_ymcw', 'date-core', '__ymd_to_ymcw', DATE, Y8, call='__ymd_to_ymcw(d)', ret='dt_ymcw_t', replace=['__ymd_get_wday', '__ymd_get_count'], solvers=SV, **YMD_IN)
+GS('dc.__ymd_to_ywd', 'date-core', '__ymd_to_ywd', DATE, [('all', '1')], call='__ymd_to_ywd(d)', ret='dt_ywd_t', replace=['__ymd_get_wday', '__ymd_get_yday', '__make_ywd_c'], solvers=SV, **YMD_IN)
+G('dc.__ymd_to_yd', 'date-core', '__ymd_to_yd', DATE, call='__ymd_to_yd(d)', ret='dt_yd_t', replace=['__ymd_get_yday'], solvers=SV, **YMD_IN)
+
+GS('dc.__yd_get_wday', 'date-core', '__yd_get_wday', DATE, Y8, call='__yd_get_wday(d)', ret='dt_dow_t', replace=['__get_jan01_wday'], solvers=SV, **YD_IN)
+G('dc.__yd_get_md', 'date-core', '__yd_get_md', DATE, call='__yd_get_md(d)', ret='struct __md_s', replace=['__yday_get_md'], solvers=SV, **YD_IN)
+G('dc.__yd_to_ymd', 'date-core', '__yd_to_ymd', DATE, call='__yd_to_ymd(d)', ret='dt_ymd_t', replace=['__yd_get_md'], solvers=SV, **YD_IN)
+G('dc.__yd_to_daisy', 'date-core', '__yd_to_daisy', DATE, call='__yd_to_daisy(d)', ret='dt_daisy_t', replace=['__jan00_daisy'], solvers=SV, **YD_IN)
+GS('dc.__yd_to_ymcw', 'date-core', '__yd_to_ymcw', DATE, Y8, call='__yd_to_ymcw(d)', ret='dt_ymcw_t', replace=['__yd_get_md', '__yd_get_wday'], solvers=SV, **YD_IN)
+GS('dc.__yd_to_ywd', 'date-core', '__yd_to_ywd', DATE, Y8, call='__yd_to_ywd(d)', ret='dt_ywd_t', replace=['__yd_get_wday', '__yd_get_wcnt_abs', '__make_ywd_c'], solvers=SV, **YD_IN)
+G('dc.__yd_get_wcnt_abs', 'date-core', '__yd_get_wcnt_abs', DATE, call='__yd_get_wcnt_abs(d)', ret='int', **YD_IN)
+GS('dc.__yd_get_wcnt_iso', 'date-core', '__yd_get_wcnt_iso', DATE, Y8, call='__yd_get_wcnt_iso(d)', ret='int', replace=['__get_jan01_wday', '__leapp'], solvers=SV, **YD_IN)
+GS('dc.__yd_get_wcnt', 'date-core', '__yd_get_wcnt', DATE, Y8, ins=[('uint32_t', 'in_u'), (U, 'in_w')], setup='dt_yd_t d; d.u = in_u;',
+   call='__yd_get_wcnt(d, (dt_dow_t)in_w)', ret='int', replace=['__get_jan01_wday'], solvers=SV)
+
+GS('dc.__get_mcnt', 'date-core', '__get_mcnt', DATE, ALL1, ins=[(U, 'in_y'), (U, 'in_m'), (U, 'in_w')],
+   call='__get_mcnt(in_y, in_m, (dt_dow_t)in_w)', ret=U, replace=['__get_m01_wday', '__get_mdays'], solvers=SV)
+GS('dc.__ymcw_get_mday', 'date-core', '__ymcw_get_mday', DATE, Y8, call='__ymcw_get_mday(d)', ret=U, replace=['__get_m01_wday', '__get_mdays'], solvers=SV, **YMCW_IN)
+GS('dc.__ymcw_get_yday', 'date-core', '__ymcw_get_yday', DATE, Y8, call='__ymcw_get_yday(d)', ret=U, direct=True, solvers=SV, **YMCW_IN)
+G('dc.__ymcw_to_ymd', 'date-core', '__ymcw_to_ymd', DATE, call='__ymcw_to_ymd(d)', ret='dt_ymd_t', replace=['__ymcw_get_mday'], solvers=SV, **YMCW_IN)
+GS('dc.__ymcw_to_daisy', 'date-core', '__ymcw_to_daisy', DATE, Y8, call='__ymcw_to_daisy(d)', ret='dt_daisy_t', replace=['__ymcw_get_mday', '__jan00_daisy', '__md_get_yday'], solvers=SV, **YMCW_IN)
+GS('dc.__ymcw_to_yd', 'date-core', '__ymcw_to_yd', DATE, Y8, call='__ymcw_to_yd(d)', ret='dt_yd_t', replace=['__ymcw_get_mday', '__md_get_yday'], solvers=SV, **YMCW_IN)
+GS('dc.__ymcw_to_ywd', 'date-core', '__ymcw_to_ywd', DATE, W7, call='__ymcw_to_ywd(d)', ret='dt_ywd_t', replace=['__ymcw_get_yday', '__make_ywd_c'], solvers=SV, **YMCW_IN)
+
+G('dc.__ywd_get_jan01_wday', 'date-core', '__ywd_get_jan01_wday', DATE, call='__ywd_get_jan01_wday(d)', ret='dt_dow_t', **YWD_IN)
+G('dc.__ywd_get_jan01_hang', 'date-core', '__ywd_get_jan01_hang', DATE, ins=[(U, 'in_j')], call='__ywd_get_jan01_hang((dt_dow_t)in_j)', ret='int')
+GS('dc.__get_isowk', 'date-core', '__get_isowk', DATE, ALL1, ins=[(U, 'in_y')], call='__get_isowk(in_y)', ret=U, solvers=SV)
+GS('dc.__get_z31wk', 'date-core', '__get_z31wk', DATE, ALL1, ins=[(U, 'in_y')], call='__get_z31wk(in_y)', ret=U, solvers=SV)
+GS('dc.__make_ywd_yd_dow', 'date-core', '__make_ywd_yd_dow', DATE, ALL1, ins=[(U, 'in_y'), ('int', 'in_yd'), (U, 'in_dow')],
+   call='__make_ywd_yd_dow(in_y, in_yd, (dt_dow_t)in_dow)', ret='dt_ywd_t',
+   replace=['__get_jan01_yday_dow', '__ywd_get_jan01_hang', '__get_isowk', '__leapp'], solvers=SV)
+GS('dc.__make_ywd_c', 'date-core', '__make_ywd_c', DATE, ALL1, ins=[(U, 'in_y'), (U, 'in_c'), (U, 'in_w'), (U, 'in_cc')],
+   call='__make_ywd_c(in_y, in_c, (dt_dow_t)in_w, in_cc)', ret='dt_ywd_t',
+   replace=['__get_jan01_wday', '__ywd_get_jan01_hang', '__get_isowk', '__leapp'], solvers=SV)
+GS('dc.__ywd_get_yday', 'date-core', '__ywd_get_yday', DATE, Y8, call='__ywd_get_yday(d)', ret='int', solvers=SV, **YWD_IN)
+GS('dc.__ywd_get_year', 'date-core', '__ywd_get_year', DATE, Y8, call='__ywd_get_year(d)', ret=U,
+   replace=['__ywd_get_jan01_wday', '__get_z31wk', '__leapp'], solvers=SV, **YWD_IN)
+GS('dc.__ywd_get_md', 'date-core', '__ywd_get_md', DATE, Y8, call='__ywd_get_md(d)', ret='struct __md_s', replace=['__ywd_get_yday', '__leapp'], solvers=SV, **YWD_IN)
+GS('dc.__ywd_to_ymd', 'date-core', '__ywd_to_ymd', DATE, Y8, call='__ywd_to_ymd(d)', ret='dt_ymd_t', replace=['__ywd_get_year', '__ywd_get_md'], solvers=SV, **YWD_IN)
+GS('dc.__ywd_to_ymcw', 'date-core', '__ywd_to_ymcw', DATE, Y8, call='__ywd_to_ymcw(d)', ret='dt_ymcw_t', replace=['__ywd_get_year', '__ywd_get_md'], solvers=SV, **YWD_IN)
+GS('dc.__ywd_to_daisy', 'date-core', '__ywd_to_daisy', DATE, Y8, call='__ywd_to_daisy(d)', ret='dt_daisy_t', replace=['__jan00_daisy', '__ywd_get_yday'], solvers=SV, **YWD_IN)
+GS('dc.__ywd_to_yd', 'date-core', '__ywd_to_yd', DATE, Y8, call='__ywd_to_yd(d)', ret='dt_yd_t', replace=['__ywd_get_year', '__ywd_get_yday', '__get_ydays'], solvers=SV, **YWD_IN)
+
+GS('dc.__daisy_to_ymcw', 'date-core', '__daisy_to_ymcw', DATE, dsplit('in_n'), call='__daisy_to_ymcw(in_n)', ret='dt_ymcw_t',
+   replace=['__daisy_to_ymd', '__ymd_get_count', '__daisy_get_wday'], solvers=SV, **DAISY_IN)
+GS('dc.__daisy_to_ywd', 'date-core', '__daisy_to_ywd', DATE, dsplit('in_n'), call='__daisy_to_ywd(in_n)', ret='dt_ywd_t',
+   replace=['__daisy_get_year', '__jan00_daisy', '__make_ywd_yd_dow'], solvers=SV, **DAISY_IN)
+GS('dc.__daisy_to_yd', 'date-core', '__daisy_to_yd', DATE, dsplit('in_n'), call='__daisy_to_yd(in_n)', ret='dt_yd_t',
+   replace=['__jan00_daisy'], solvers=SV, **DAISY_IN)
+for f, t in (('__daisy_to_ldn', 'dt_ldn_t'), ('__daisy_to_mdn', 'dt_mdn_t'), ('__ldn_to_daisy', 'dt_daisy_t'), ('__mdn_to_daisy', 'dt_daisy_t')):
+    G('dc.' + f, 'date-core', f, DATE, ins=[('uint32_t', 'in_n')], call='%s(in_n)' % f, ret=t)
+G('dc.__daisy_to_jdn', 'date-core', '__daisy_to_jdn', DATE, ins=[('uint32_t', 'in_n')], call='__daisy_to_jdn(in_n)', ret='dt_jdn_t', solvers=['cadical', 'z3'])
+G('dc.__jdn_to_daisy', 'date-core', '__jdn_to_daisy', DATE, ins=[('float', 'in_f')], call='__jdn_to_daisy(in_f)', ret='dt_daisy_t', solvers=['cadical', 'z3'],
+  sweep={'in_f': '(float)(RND % 4000000) + 0.5f'})
+
+D_IN = dict(ins=[(U, 'in_typ'), ('uint32_t', 'in_u')], setup='struct dt_d_s d = {DT_DUNK}; d.typ = (dt_dtyp_t)in_typ; d.u = in_u;',
+            sweep={'in_typ': 'RND % 12'})
+CONV_LEAVES = ['__ymd_to_daisy', '__ymcw_to_daisy', '__ywd_to_daisy', '__yd_to_daisy', '__ldn_to_daisy', '__mdn_to_daisy',
+               '__ymcw_to_ymd', '__daisy_to_ymd', '__ywd_to_ymd', '__yd_to_ymd', '__ymd_to_ymcw', '__daisy_to_ymcw', '__ywd_to_ymcw', '__yd_to_ymcw',
+               '__ymd_to_ywd', '__ymcw_to_ywd', '__daisy_to_ywd', '__yd_to_ywd', '__ymd_to_yd', '__daisy_to_yd', '__ymcw_to_yd', '__ywd_to_yd']
+TSPLIT = [(n, {'in_typ': n}) for n in ('DT_YMD', 'DT_YMCW', 'DT_YWD', 'DT_YD', 'DT_DAISY', 'DT_LDN', 'DT_MDN')]
+UNR = lambda *fs: ['%s/UNREACH_%s' % (f, f) for f in fs]
+def leaves(x):
+    return [l for l in CONV_LEAVES if l.endswith('_to_' + x)] + ['__ldn_to_daisy', '__mdn_to_daisy']
+GS('dc.dt_conv_to_daisy', 'date-core', 'dt_conv_to_daisy', DATE, TSPLIT, call='dt_conv_to_daisy(d)', ret='dt_daisy_t', replace=sorted(set(leaves('daisy'))) + UNR('__bizda_to_daisy', '__ummulqura_to_ldn', '__jdn_to_daisy'), solvers=SV, **D_IN)
+GS('dc.dt_conv_to_ymd', 'date-core', 'dt_conv_to_ymd', DATE, TSPLIT, call='dt_conv_to_ymd(d)', ret='dt_ymd_t', replace=sorted(set(leaves('ymd'))) + UNR('__bizda_to_ymd', '__ummulqura_to_ldn', '__jdn_to_daisy'), solvers=SV, **D_IN)
+GS('dc.dt_conv_to_ymcw', 'date-core', 'dt_conv_to_ymcw', DATE, TSPLIT, call='dt_conv_to_ymcw(d)', ret='dt_ymcw_t', replace=sorted(set(leaves('ymcw'))) + UNR('__bizda_to_ymcw', '__ummulqura_to_ldn', '__jdn_to_daisy'), solvers=SV, **D_IN)
+GS('dc.dt_conv_to_ywd', 'date-core', 'dt_conv_to_ywd', DATE, TSPLIT, call='dt_conv_to_ywd(d)', ret='dt_ywd_t', replace=sorted(set(leaves('ywd'))) + UNR('__bizda_to_ywd', '__ummulqura_to_ldn', '__jdn_to_daisy'), solvers=SV, **D_IN)
+GS('dc.dt_conv_to_yd', 'date-core', 'dt_conv_to_yd', DATE, TSPLIT, call='dt_conv_to_yd(d)', ret='dt_yd_t', replace=sorted(set(leaves('yd'))) + UNR('__ummulqura_to_ldn', '__jdn_to_daisy'), solvers=SV, **D_IN)
+G('dc.dt_dfixup.valid', 'date-core', 'dt_dfixup', DATE, call='dt_dfixup(d)', ret='struct dt_d_s',
+  replace=['__get_mdays', '__get_mcnt', '__get_isowk', '__get_ydays'] + UNR('__bizda_fixup', '__ummulqura_fixup'), solvers=SV, **D_IN)
+GS('dc.dt_dconv', 'date-core', 'dt_dconv', DATE, [(t[3:] + '.' + n[3:], {'in_tgt': t, 'in_typ': n}) for t in ('DT_YMD', 'DT_YMCW', 'DT_YWD', 'DT_YD', 'DT_DAISY', 'DT_LDN', 'DT_MDN') for n in ('DT_YMD', 'DT_YMCW', 'DT_YWD', 'DT_YD', 'DT_DAISY', 'DT_LDN', 'DT_MDN')], ins=[(U, 'in_tgt'), (U, 'in_typ'), ('uint32_t', 'in_u')],
+  setup='struct dt_d_s d = {DT_DUNK}; d.typ = (dt_dtyp_t)in_typ; d.u = in_u;', call='dt_dconv((dt_dtyp_t)in_tgt, d)', ret='struct dt_d_s',
+  replace=['dt_dfixup', 'dt_conv_to_daisy', 'dt_conv_to_ymd', 'dt_conv_to_ymcw', 'dt_conv_to_ywd', 'dt_conv_to_yd', '__daisy_to_ldn', '__daisy_to_mdn'] + UNR('__daisy_to_jdn', 'dt_conv_to_bizda', 'dt_conv_to_ummulqura'),
+  solvers=SV, sweep={'in_typ': 'RND % 12', 'in_tgt': 'RND % 12'})
